@@ -149,7 +149,14 @@ namespace bloch::update {
                 }
                 if (start == pos)
                     break;
-                int value = std::stoi(v.substr(start, pos - start));
+                int value = 0;
+                try {
+                    value = std::stoi(v.substr(start, pos - start));
+                } catch (const std::exception&) {
+                    // A component that does not fit an int (e.g. "9999999999.0.0") is not a
+                    // version we can compare: treat the whole string as unparsable, never throw.
+                    return SemVer{};
+                }
                 if (idx == 0)
                     sem.major = value;
                 else if (idx == 1)
